@@ -176,11 +176,23 @@ def gen_case(rng):
         flows = [float(rng.choice(SMALL + BIG)) for _ in range(P * N)]
     else:
         flows = [float(rng.choice(SMALL if IDS[k % N] in reactants else BIG)) for k in range(P * N)]
+    if kind != 'single' and rng.random() < 0.3:
+        # an inactive member: no conversion, or none of its reactant in the feed
+        r = rng.choice(case['rxns'][:-1] or case['rxns'])
+        if rng.random() < 0.5: r['X'] = 0.0
+        else:
+            j = IDS.index(r['reactant'])
+            for p in range(P): flows[p * N + j] = 0.0
     case['flows'] = flows
     case['T'] = rng.choice(TS)
     case['op'] = 'dH' if 'L' in phases else rng.choice(['adiabatic', 'adiabatic', 'isothermal'])
     case['Q'] = rng.choice(QS) if case['op'] == 'adiabatic' else 0.0
     case['not_stream'] = case['op'] == 'adiabatic' and rng.random() < 0.04
+    if not phases:
+        # single-phase Stream: its phase, and the phases in which the (stubbed) H/T solver raises
+        case['sphase'] = rng.choice(['l', 'l', 'g', 's'])
+        case['solve_fail'] = ([] if rng.random() < 0.75 or case['op'] != 'adiabatic' else
+                              rng.choice([['l'], ['g'], ['g', 'l'], ['s'], ['l', 's'], ['g', 'l', 's']]))
     if not any('plus' in r for r in case['rxns']) and rng.random() < 0.3:
         case['xhist'] = gen_xhist(rng, case)
     return case
@@ -204,6 +216,17 @@ WITNESSES = []
 def gen_cases(rng, tier):
     n = 300 if tier == 'quick' else 5000
     return [gen_case(rng) for _ in range(n)]
+
+def search_cases(rng, tier):
+    """used only after something broke: isothermal runs of sets and systems (the clause that involves every member)"""
+    out = []
+    while len(out) < (150 if tier == 'quick' else 1500):
+        c = gen_case(rng)
+        if c['kind'] == 'single' or 'L' in c['phases']: continue
+        c['op'] = 'isothermal'; c['Q'] = 0.0; c['not_stream'] = False
+        if 'solve_fail' in c: c['solve_fail'] = []
+        out.append(c)
+    return out
 
 # ------------------------------------------------------------------ implementation side
 def errname(ex):
@@ -292,7 +315,7 @@ def make_stream(case):
         s = tmo.MultiStream(None, phases=ph, T=case['T'])
         s.imol.data[:] = flows.reshape(len(ph), N)
     else:
-        s = tmo.Stream(None, T=case['T'])
+        s = tmo.Stream(None, T=case['T'], phase=case.get('sphase', 'l'))
         s.imol.data[:] = flows
     return s
 
@@ -320,17 +343,43 @@ def run_impl(case):
     out['Hnet0'] = fr_json(frac(s.Hnet))
     out['err'] = None
     try:
-        if case['op'] == 'adiabatic':
-            obj.adiabatic_reaction(np.array(case['flows']) if case['not_stream'] else s, case['Q'])
-        else:
-            obj(s)
+        with failing_solver(s, case.get('solve_fail', [])):
+            if case['op'] == 'adiabatic':
+                obj.adiabatic_reaction(np.array(case['flows']) if case['not_stream'] else s, case['Q'])
+            else:
+                obj(s)
     except Exception as ex:
         out['err'] = errname(ex); out['err_cls'] = type(ex).__name__
-    if out['err'] is None:
+    if out['err'] is None or flip_case(case):
         out['mol'] = [fr_json(frac(x)) for x in np.asarray(s.imol.data.to_array(), float).reshape(-1)]
         out['T'] = fr_json(frac(s.T))
         out['Hnet'] = fr_json(frac(s.Hnet))
+        if not case['phases']: out['phase'] = s.phase
     return out
+
+def flip_case(case):
+    """adiabatic reaction of a single-phase Stream: modelled with the H setter's phase fallback, state compared even
+    after an exception"""
+    return case['op'] == 'adiabatic' and not case['phases']
+
+import contextlib
+@contextlib.contextmanager
+def failing_solver(stream, fails):
+    """oracle substitution: mixture.solve_T_at_HP raises in the given phases, is the real solver otherwise"""
+    if not fails:
+        yield; return
+    cls = type(stream.mixture)                  # the mixture object has slots: substitute on its class
+    had = 'solve_T_at_HP' in cls.__dict__
+    orig = cls.solve_T_at_HP
+    def stub(self, phase, mol, H, T_guess, P):
+        if phase in fails: raise RuntimeError('H/T solver stub: no solution in phase ' + phase)
+        return orig(self, phase, mol, H, T_guess, P)
+    cls.solve_T_at_HP = stub
+    try:
+        yield
+    finally:
+        if had: cls.solve_T_at_HP = orig
+        else: del cls.solve_T_at_HP
 
 # ------------------------------------------------------------------ model side
 def cerr(e):
@@ -382,6 +431,12 @@ def coq_case(case, out):
     if case['op'] == 'dH':
         return t
     ok = out['err'] is None
+    if flip_case(case):
+        th = (f'(thermal_flip_eqb {qlist(CN)} {qlist(HF)} {qlist(MW)} {clist([PH[p] for p in case.get("solve_fail", [])], cnat)} '
+              f'{cobj_after(case)} {cbool(not case["not_stream"])} (mkP {qlist(case["flows"])} {q(case["T"])} '
+              f'{cnat(PH[case.get("sphase", "l")])}) {q(case["Q"])} {q(F(out["Hnet0"]))} {cerr(out["err"])} '
+              f'{qlist([F(x) for x in out["mol"]])} {q(F(out["T"]))} {cnat(PH[out["phase"]])} {q(F(out["Hnet"]))})')
+        return f'({t} && {th})'
     th = (f'(thermal_eqb {qlist(CN * P)} {qlist(HF * P)} {qlist(MW * P)} {cobj_after(case)} {cbool(case["op"] == "adiabatic")} '
           f'{cbool(not case["not_stream"])} (mkS {qlist(case["flows"])} {q(case["T"])}) {q(case["Q"])} {q(F(out["Hnet0"]))} '
           f'{cerr(out["err"])} {qlist([F(x) for x in out["mol"]]) if ok else "[]"} {q(F(out["T"])) if ok else "0"} '
@@ -408,6 +463,7 @@ def classify(case, out):
         for t in r['terms'] + (r['plus']['terms'] if r.get('plus') else []): cnt.setdefault(t[1], set()).add(t[0])
         if any(len(v) > 1 for v in cnt.values()): ks.append('chemical-in-two-phases')
     for o in case.get('xhist', []): ks.append('xhist:' + o[0])
+    if case.get('solve_fail'): ks.append('solver-raises-in:' + ''.join(case['solve_fail']) + ':stream-' + case.get('sphase', 'l') + '->' + str(out.get('phase')))
     if out.get('err'): ks.append('error:' + out.get('err_cls', '?'))
     elif case['op'] != 'dH': ks.append('returned')
     for e, v in out['dH']:
@@ -477,12 +533,17 @@ def oracle(case):
     hnet0 = s.Hnet; hf0 = s.Hf; mol0 = np.asarray(s.imol.data.to_array(), float).reshape(-1).copy()
     scale = abs(hnet0) + abs(case['Q']) + abs(hf0)
     if case['op'] == 'adiabatic':
+        fails = case.get('solve_fail', [])
         try:
-            obj.adiabatic_reaction(s, case['Q'])
+            with failing_solver(s, fails):
+                obj.adiabatic_reaction(s, case['Q'])
         except Exception as ex:
             if type(ex).__name__ == 'InfeasibleRegion': return None
             if not mol0.any() or not np.asarray(s.imol.data.to_array()).any(): return None   # nothing to heat
-            return f'adiabatic: raised {type(ex).__name__}: {ex}'
+            ph0 = case.get('sphase', 'l')
+            other = {'g': 'l', 'l': 'g'}.get(ph0)
+            if ph0 in fails and (other is None or other in fails): return None   # no phase left in which T can be found
+            return f'adiabatic: raised {type(ex).__name__}: {ex} (stream phase {ph0}, solver unavailable in {fails})'
         if not approx(s.Hnet, hnet0 + case['Q'], scale):
             return f'adiabatic: Hnet after {s.Hnet} != Hnet before {hnet0} + Q {case["Q"]}'
         return None
@@ -499,8 +560,15 @@ def oracle(case):
         groups = [[case['kind'], list(range(len(members)))]] if case['kind'] != 'system' else case['parts']
         for pk, idx in groups:
             if pk == 'parallel':
+                # every member acts on the feed: apply each one alone to a copy of the feed and add the changes up
                 fed += [amount(shadow, fresh[i]) for i in idx]
-                tmo.ParallelReaction([fresh[i] for i in idx]).force_reaction(shadow)
+                feed = np.asarray(shadow.imol.data.to_array(), float).copy()
+                total = feed.copy()
+                for i in idx:
+                    shadow.imol.data[:] = feed
+                    fresh[i].force_reaction(shadow)
+                    total += np.asarray(shadow.imol.data.to_array(), float) - feed
+                shadow.imol.data[:] = total
             else:
                 for i in idx:
                     fed.append(amount(shadow, fresh[i])); fresh[i].force_reaction(shadow)
@@ -510,8 +578,11 @@ def oracle(case):
         return f'isothermal: raised {type(ex).__name__}: {ex}'
     if any(d is None for d in dhs): return None
     mol1 = np.asarray(s.imol.data.to_array(), float).reshape(-1)
-    if not np.allclose(mol1, np.asarray(shadow.imol.data.to_array(), float).reshape(-1), rtol=1e-9, atol=1e-9):
-        return None    # the clamp fired: the clause is about the unclamped extent
+    ref = np.asarray(shadow.imol.data.to_array(), float).reshape(-1)
+    if not np.allclose(mol1, ref, rtol=1e-9, atol=1e-9):
+        if (ref < 0).any(): return None    # the clamp fired: the clause is about the unclamped extent
+        return (f'isothermal: flows after the call {mol1.tolist()} are not those of the members applied one by one '
+                f'(each to the feed for parallel, to the running composition for series) {ref.tolist()}')
     heat = sum(d * f for d, f in zip(dhs, fed))
     # sensible (and, for the stub, phase-independent) enthalpy of each species at T, from the implementation
     h = []
